@@ -280,12 +280,18 @@ pub(crate) fn generate(profile: &str, tier: &str, seed: u64) -> Scenario {
     } else if enum_kill {
         rng.weighted(&[60, 35, 5, 0]) as u8
     } else {
-        rng.weighted(&[42, 35, 18, 5]) as u8
+        rng.weighted(&[44, 36, 17, 3]) as u8
     };
-    let n_blocks: u32 = if enum_kill {
+    // layer B only: many tiny blocks exist at once while the submitter cannot yet take them (the
+    // Celestia node does not answer), so the 128-slot channel fills up and the reader is paused
+    let backpressure = whole_process && !enum_kill && rng.chance(3, 20);
+    let size_class = if backpressure { 0 } else { size_class };
+    let n_blocks: u32 = if backpressure {
+        rng.range(135, 220) as u32
+    } else if enum_kill {
         rng.range(1, 5) as u32
     } else if size_class == 3 {
-        rng.range(2, 12) as u32
+        rng.range(2, if tier == "thorough" { 12 } else { 8 }) as u32
     } else {
         rng.range(1, 26) as u32
     };
@@ -351,7 +357,19 @@ pub(crate) fn generate(profile: &str, tier: &str, seed: u64) -> Scenario {
     let mut ops = Vec::new();
 
     // ---- workload: block arrivals ------------------------------------------------------------
-    {
+    if backpressure {
+        ops.push(Op::Arrive {
+            at_ms: 0,
+            n: n_blocks,
+        });
+        for nth in 0..rng.range(2, 5) as u32 {
+            ops.push(Op::Rpc {
+                kind: RpcKind::NodeInfo,
+                nth,
+                fault: RpcFault::Stall,
+            });
+        }
+    } else {
         let mut left = n_blocks;
         let mut t = 0u64;
         let burst_gap = *rng.pick(&[0u64, 500, 2_000, 10_000, 30_000]);
